@@ -36,7 +36,7 @@ from extract import interp as extract_interp
 
 RULE = ('interpolation: api(nearest/linear/per-axis) x dimension 1-3 x per-axis scheme tuple x '
         'per-axis coordinate kind (uniform / power-of-two non-uniform / dyadic non-uniform / '
-        'decimal) x value dtype x calling convention (point/array/mesh, out given or not); '
+        'decimal / large offset 2^12..2^20 strides) x value dtype x calling convention (point/array/mesh, out given or not); '
         'points per axis drawn from nodes, exact midpoints, cell interior, one cell outside '
         '(low/high), far outside. sampling: callable kind x dimension x dtype x input '
         'convention. A case is non-trivial when the expected output is not constant; distinct = '
@@ -55,17 +55,30 @@ ASSUMPTIONS = ['floating-point rounding is outside the model: on the exact strea
                'operation on the path is exact and outputs are compared exactly; on the decimal / '
                'non-power-of-two streams outputs agree within 1e-9*scale+1e-12 (float64) / 1e-4 '
                'relative (float32) and no point is placed near a branch point except exactly on it',
-               'coordinate vectors strictly increasing with at least two nodes per axis (a '
-               'single-node axis divides by zero in _find_indices: outside the property)',
+               'coordinate vectors strictly increasing with at least two nodes per axis in the model '
+               'and the theorems; a single-node axis (linear interpolation gives nan at the node) is '
+               'exercised on the real code only and recorded as open finding C15-F6',
                'the cast of the evaluation points to the value dtype in _find_indices is the '
                'identity on real points for float/complex/object values and is not performed for '
                'float32/complex64/int/narrow-string values (table castSafe, tied to np.can_cast)',
-               'linear / per-axis interpolation of integer or string values is outside the property '
-               '(the code raises UFuncTypeError: it accumulates weighted sums in the value dtype)',
+               'interpolation of integer or string values is inside the property for nearest on every '
+               'axis (nearest_interpolator and per_axis_interpolator); with a linear axis it is outside '
+               '(weighted sums in the value dtype: the code raises UFuncTypeError)',
+               'a vectorize-decorated callable without otypes takes its output dtype from the first '
+               'evaluated point (documented np.vectorize behaviour): the callable as decorated is what '
+               'is sampled, outside the property',
                'NaN/inf values and points are outside the model']
 
 SCH_NAME = {'n': 'nearest', 'l': 'linear'}
 INSIDE_T = [Fr(1, 8), Fr(1, 4), Fr(3, 8), Fr(5, 8), Fr(3, 4), Fr(7, 8)]
+# fine positions in a cell (far below float32 resolution on an offset grid), incl. just beside
+# the midpoint and just beside the nodes
+# (12 fractional bits: blends of few-bit values stay exact in single precision)
+FINE_T = [Fr(1027, 4096), Fr(3001, 4096), Fr(2047, 4096), Fr(2049, 4096), Fr(1, 4096), Fr(4095, 4096),
+          Fr(2047, 4096), Fr(2049, 4096)]
+# index rule only (no arithmetic on the values): closer still to the midpoint
+FINER_T = [Fr(1, 2) - Fr(1, 2 ** 20), Fr(1, 2) + Fr(1, 2 ** 20), Fr(1, 2) - Fr(1, 2 ** 30),
+           Fr(1, 2) + Fr(1, 2 ** 30), Fr(1, 2 ** 20), 1 - Fr(1, 2 ** 20)]
 OUT1_T = [Fr(1, 8), Fr(1, 4), Fr(1, 2), Fr(3, 4), Fr(1)]
 FAR_T = [Fr(5, 4), Fr(3, 2), Fr(2), Fr(3)]
 
@@ -128,6 +141,16 @@ def gen_coords(rng, n, kind):
             hs = [Fr(rng.choice([1, 3, 5, 6, 7, 10, 12]), 8) for _ in range(n - 1)]
             if n <= 2 or len(set(hs)) > 1:
                 break
+    elif kind == 'offset':
+        # grid far from the origin: offset = 2^12 .. 2^20 strides, all dyadic, so that every
+        # coordinate and point is exact in float64 but NOT representable in float32
+        h = Fr(rng.choice([1, 2, 4]), 4)
+        m = rng.randint(12, 20)
+        start = rng.choice([1, 1, -1]) * h * (2 ** m + rng.randint(0, 5))
+        if rng.random() < 0.5:
+            hs = [h] * (n - 1)
+        else:
+            hs = [h * rng.choice([1, 2, 4]) for _ in range(n - 1)]
     elif kind == 'decimal':
         # what uniform_partition produces for "round" decimal domains; floats, not dyadic
         h = rng.choice([0.1, 0.2, 0.3, 0.4, 0.7])
@@ -141,7 +164,7 @@ def gen_coords(rng, n, kind):
     return c
 
 
-def gen_axis_points(rng, c, exact, count, want=None):
+def gen_axis_points(rng, c, exact, count, want=None, fine=False, finer=False):
     """points on one axis with their categories"""
     n = len(c)
     h0, hl = c[1] - c[0], c[-1] - c[-2]
@@ -160,6 +183,8 @@ def gen_axis_points(rng, c, exact, count, want=None):
         elif cat == 'in':
             i = rng.choice([0, n - 2, rng.randrange(n - 1)])
             t = rng.choice(INSIDE_T if exact else [Fr(1, 4), Fr(3, 4), Fr(1, 8), Fr(7, 8)])
+            if fine:
+                t = rng.choice(FINE_T + (FINER_T if finer else []))
             p = c[i] + (c[i + 1] - c[i]) * t
         elif cat == 'lo1':
             p = c[0] - h0 * rng.choice(OUT1_T if exact else [Fr(1, 4), Fr(3, 4)])
@@ -258,10 +283,36 @@ def interp_configs(ctx):
                 for dt in (near_dt if not quick else rng.sample(near_dt, 3)):
                     ck = [k if j == 0 else rng.choice(kinds[:3] if k != 'decimal' else kinds) for j in range(d)]
                     cfgs.append(dict(api='nearest', sch='n' * d, ckinds=ck, dtype=dt))
+    # nearest-neighbour interpolation through per_axis_interpolator on integer / string data
+    for rep in range(1 if quick else 4):
+        for d in (1, 2, 3):
+            for dt in ('int64', 'int32', 'U1', 'U3'):
+                if quick and (d + rep + len(dt)) % 2:
+                    continue
+                cfgs.append(dict(api='peraxis', sch='n' * d, ckinds=[rng.choice(kinds) for _ in range(d)],
+                                 dtype=dt))
+    # float32 / complex64 (and, for contrast, float64) data on grids far from the origin: the
+    # evaluation points must not lose precision on their way to the node search
+    for rep in range(2 if quick else 8):
+        for api, sch in (('linear', 'l'), ('nearest', 'n'), ('peraxis', 'l'), ('peraxis', 'n')):
+            for dt in ('float32', 'complex64', 'float64'):
+                if dt == 'float64' and rep % 2:
+                    continue
+                cfgs.append(dict(api=api, sch=sch, ckinds=['offset'], dtype=dt))
+        for api, sch in (('linear', 'll'), ('nearest', 'nn'), ('peraxis', 'ln'), ('peraxis', 'nl')):
+            dt = ('float32', 'complex64')[rep % 2]
+            cfgs.append(dict(api=api, sch=sch, ckinds=rng.sample(['offset', rng.choice(['uniform', 'pow2', 'offset'])], 2),
+                             dtype=dt))
     out = []
     for cfg in cfgs:
         d = len(cfg['sch'])
         exact = 'decimal' not in cfg['ckinds']
+        if 'offset' in cfg['ckinds'] and d > 1 and cfg['dtype'] in ('float32', 'complex64') \
+                and cfg['api'] != 'nearest':
+            # products of fine weights exceed single precision in the accumulation of the
+            # VALUES: compare within single-precision VALUE tolerance (the index path is exact)
+            exact = False
+            cfg['value_tol'] = True
         maxn = {1: 7, 2: 5, 3: 4}[d]
         coords = []
         for k in cfg['ckinds']:
@@ -284,11 +335,15 @@ def interp_configs(ctx):
                 want = ['node'] * npts
             elif r < 0.5:
                 want = ['in'] * npts
-            pl = gen_axis_points(rng, c, exact, npts, want)
+            kind_j = cfg['ckinds'][j]
+            if kind_j == 'offset' and want is None:
+                want = ['in', 'mid', 'node', 'in', 'in', 'lo1', 'in', 'hi1', 'in']
+            pl = gen_axis_points(rng, c, kind_j != 'decimal', npts, want, fine=(kind_j == 'offset'),
+                                 finer=(cfg['api'] == 'nearest'))
             rng.shuffle(pl)
             pts.append(pl)
         case = dict(kind='interp', api=cfg['api'], sch=cfg['sch'], ckinds=cfg['ckinds'],
-                    dtype=cfg['dtype'], exact=exact,
+                    dtype=cfg['dtype'], exact=exact, value_tol=bool(cfg.get('value_tol')),
                     coords=[[frs(x) for x in c] for c in coords],
                     vals=gen_values(rng, size, cfg['dtype'], distinct=(cfg['api'] == 'nearest' or rng.random() < 0.5)),
                     pts=[[frs(p) for p, _ in pl] for pl in pts],
@@ -458,7 +513,10 @@ def eval_conventions(case, f=None):
 def model_lines(case, convs):
     d = len(case['coords'])
     dims = [len(c) for c in case['coords']]
-    kind = 'nearest' if case['api'] == 'nearest' else 'peraxis'
+    # per_axis_interpolator dispatches to _NearestInterpolator when every axis is 'nearest'
+    # (theorem nearest_paths_agree: same values); needed for integer / string data
+    kind = 'nearest' if (case['api'] == 'nearest' or
+                         (set(case['sch']) == {'n'} and case['dtype'].startswith(('U', 'int')))) else 'peraxis'
     head = 'interp kind={} sch={} dims={} c={} v={}'.format(
         kind, ','.join(case['sch']), ','.join(str(n) for n in dims),
         ';'.join(','.join(fs(pfr(x)) for x in c) for c in case['coords']),
@@ -480,6 +538,9 @@ def model_lines(case, convs):
 def tol_for(case, scale):
     if case['exact']:
         return Fr(0)
+    if case.get('value_tol'):
+        # a handful of single-precision roundings of the accumulated VALUE, nothing else
+        return Fr(1, 2 ** 19) * scale
     if case['dtype'] in ('float32', 'complex64'):
         return Fr(1, 10000) * scale + Fr(1, 10 ** 6)
     return Fr(1, 10 ** 9) * scale + Fr(1, 10 ** 12)
@@ -562,7 +623,8 @@ def check_interp_case(ctx, case, results, model_out):
     # expected by the textbook reference
     expected = []
     for pt in ptsF:
-        if case['api'] == 'nearest':
+        if case['api'] == 'nearest' or not numeric:
+            # (non-numeric values only occur with every axis 'nearest': no arithmetic involved)
             expected.append(case['vals'][ref_nearest_index(coords, pt, dims)])
         else:
             expected.append(ref_interp(coords, case['sch'], vals, dims, pt))
@@ -677,10 +739,18 @@ def affine_check(ctx, case):
                        Fr(rnd.randint(-4, 4), 4) if cplx else Fr(0)))
         else:
             bs.append((Fr(0), Fr(0)))
+    # on grids far from the origin the affine function is written relative to the first node
+    # with slope b/h, so that its VALUES stay small and exactly representable in single precision
+    ref = [Fr(0)] * len(coords)
+    for j, k in enumerate(case.get('ckinds', [])):
+        if k == 'offset':
+            h0 = coords[j][1] - coords[j][0]
+            ref[j] = coords[j][0]
+            bs[j] = (bs[j][0] / h0, bs[j][1] / h0)
     vals = []
     for ix in itertools.product(*[range(n) for n in dims]):
-        re = a[0] + sum(b[0] * coords[j][i] for j, (b, i) in enumerate(zip(bs, ix)))
-        im = a[1] + sum(b[1] * coords[j][i] for j, (b, i) in enumerate(zip(bs, ix)))
+        re = a[0] + sum(b[0] * (coords[j][i] - ref[j]) for j, (b, i) in enumerate(zip(bs, ix)))
+        im = a[1] + sum(b[1] * (coords[j][i] - ref[j]) for j, (b, i) in enumerate(zip(bs, ix)))
         vals.append((re, im))
     case2 = dict(case, vals=[ctok(v) for v in vals])
     # evaluation points: inside the hull only (incl. nodes and the hull boundary)
@@ -706,8 +776,8 @@ def affine_check(ctx, case):
             ctx.violation(key_of(case, 'affine data conv={} raised'.format(conv)), status, rc)
             continue
         for pt, tok in zip(ptsF, toks):
-            exp = (a[0] + sum(b[0] * x for b, x in zip(bs, pt)),
-                   a[1] + sum(b[1] * x for b, x in zip(bs, pt)))
+            exp = (a[0] + sum(b[0] * (x - r) for b, x, r in zip(bs, pt, ref)),
+                   a[1] + sum(b[1] * (x - r) for b, x, r in zip(bs, pt, ref)))
             if tok == 'nonfinite' or not close(parse_c(tok), exp, tol):
                 ctx.violation(key_of(case, 'affine function not reproduced inside the grid conv={}'.format(conv)),
                               'a={} b={} at point {} expected {} got {}'.format(
@@ -803,6 +873,14 @@ def op_configs(ctx):
                     out.append(dict(kind='interp', api='resampling', sch=sch, dtype=dt, dom=dom, ran=ran,
                                     vals=gen_values(rng, size, dt, distinct=False),
                                     single_string=(rng.random() < 0.5), aseed=rng.getrandbits(30)))
+                if set(sch) == {'n'}:
+                    dom, ran = gen_space_pair(rng, d, 'int64', False)
+                    size = 1
+                    for n in dom['shape']:
+                        size *= n
+                    out.append(dict(kind='interp', api='resampling', sch=sch, dtype='int64', dom=dom,
+                                    ran=ran, vals=gen_values(rng, size, 'int64', distinct=True),
+                                    single_string=(rng.random() < 0.5), aseed=rng.getrandbits(30)))
                 # linear_deform on a uniform template space
                 dt = num_dt[(si + rep) % 2 * 1]  # real templates (float64 / float32)
                 dom, _ = gen_space_pair(rng, d, dt, False)
@@ -856,7 +934,7 @@ def eval_op_case(case):
         guard('mesh', lambda: op(x).asarray())
 
         def with_out():
-            y = ran.element(np.full(ran.shape, np.nan))
+            y = ran.element(np.full(ran.shape, -77 if case['dtype'].startswith('int') else np.nan))
             try:
                 r = op(x, out=y)
             except ValueError as e:
@@ -895,8 +973,9 @@ def eval_op_case(case):
 
 def op_model_line(case):
     dims = [len(c) for c in case['coords']]
-    head = 'interp kind=peraxis sch={} dims={} c={} v={}'.format(
-        ','.join(case['sch']), ','.join(str(n) for n in dims),
+    kind = 'nearest' if (set(case['sch']) == {'n'} and case['dtype'].startswith(('U', 'int'))) else 'peraxis'
+    head = 'interp kind={} sch={} dims={} c={} v={}'.format(
+        kind, ','.join(case['sch']), ','.join(str(n) for n in dims),
         ';'.join(','.join(fs(pfr(x)) for x in c) for c in case['coords']), ','.join(case['vals']))
     if case['api'] == 'resampling':
         return 'mesh', head + ' conv=mesh x=' + ';'.join(','.join(fs(pfr(p)) for p in pl) for pl in case['pts'])
@@ -1624,7 +1703,85 @@ def run_vector_kwargs(ctx):
             ctx.violation(key + ' raised', '{}: {}'.format(type(e).__name__, str(e)[:200]), rc)
 
 
+def run_alias_check(ctx):
+    """A callable that returns (a view of) its input, e.g. the identity: the sampled element /
+    array holds the right values AND owns its data — writing to it leaves the grid of the space
+    (resp. the caller's point array) untouched."""
+    import odl
+    from odl.discr.discr_utils import sampling_function
+    specs = [('1d x', odl.uniform_discr(0, 2, 4), lambda x: x, 0),
+             ('1d x[0]', odl.uniform_discr(0, 2, 4), lambda x: x[0], 0),
+             ('2d (4,1) x[0]', odl.uniform_discr([0, 0], [2, 1], (4, 1)), lambda x: x[0], 0),
+             ('2d (1,3) x[1]', odl.uniform_discr([0, 0], [2, 3], (1, 3)), lambda x: x[1], 1),
+             ('3d (1,2,1) x[1]', odl.uniform_discr([0, 0, 0], [1, 2, 1], (1, 2, 1)), lambda x: x[1], 1)]
+    for name, space, f, axis in specs:
+        rc = dict(kind='alias', name=name)
+        key = 'sampling identity-like callable {} :: '.format(name)
+        ctx.case(('alias', name), None)
+        ctx.hit('sampling/alias')
+        try:
+            before = [np.array(c, copy=True) for c in space.grid.coord_vectors]
+            e = space.element(f)
+            pts = list(itertools.product(*[[Fr(float(t)) for t in c] for c in before]))
+            if flat_tokens(e.asarray(), 'float64') != [fs(pt[axis]) for pt in pts]:
+                ctx.violation(key + 'values differ from the callable at the grid points',
+                              str(flat_tokens(e.asarray(), 'float64'))[:200], rc)
+            shared = any(np.shares_memory(e.asarray(), c) for c in space.grid.coord_vectors)
+            e *= 2
+            changed = any(not np.array_equal(c, b) for c, b in zip(space.grid.coord_vectors, before))
+            if changed:   # undo, the space object may be cached by the library
+                e /= 2
+            if shared or changed:
+                ctx.violation(key + 'element aliases the sampling grid',
+                              'shares memory with space.grid.coord_vectors: {}; writing to the element '
+                              'changed the grid: {}'.format(shared, changed), rc)
+        except Exception as ex:  # noqa
+            ctx.violation(key + 'raised', '{}: {}'.format(type(ex).__name__, str(ex)[:200]), rc)
+    # point-array input of the wrapped function
+    ctx.case(('alias', 'array input'), None)
+    try:
+        sf = sampling_function(lambda x: x, odl.IntervalProd(0, 2), out_dtype='float64')
+        a = np.array([[0.5, 1.0, 1.5]])
+        r = sf(a)
+        if np.shares_memory(r, a):
+            ctx.violation('sampling identity-like callable 1d point array :: result aliases the input array',
+                          'np.shares_memory(result, input) is True', dict(kind='alias', name='array'))
+    except Exception as ex:  # noqa
+        ctx.violation('sampling identity-like callable 1d point array :: raised',
+                      '{}: {}'.format(type(ex).__name__, str(ex)[:200]), dict(kind='alias', name='array'))
+
+
+def run_single_node_axis(ctx):
+    """Axes with a single node: the node is the whole hull, its value must come back there
+    (nearest: everywhere along that axis)."""
+    from odl.discr import discr_utils as du
+    for d, shape in ((1, (1,)), (2, (3, 1)), (2, (1, 3))):
+        cv = [np.array([0.5 + k for k in range(n)]) for n in shape]
+        f = (np.arange(int(np.prod(shape)), dtype=float) + 1).reshape(shape)
+        node = [c[-1] for c in cv]
+        exp = fs(float(f[tuple(n - 1 for n in shape)]))
+        for api in ('nearest', 'peraxis-nearest', 'linear'):
+            rc = dict(kind='single-node', d=d, shape=list(shape), api=api)
+            key = 'interp single-node axis shape={} api={} :: '.format(shape, api)
+            ctx.case(('single-node', shape, api), None)
+            ctx.hit('single-node/' + api)
+            try:
+                with warnings.catch_warnings():
+                    warnings.simplefilter('ignore')
+                    itp = du.nearest_interpolator(f, cv) if api == 'nearest' else \
+                        du.per_axis_interpolator(f, cv, 'nearest') if api == 'peraxis-nearest' else \
+                        du.linear_interpolator(f, cv)
+                    r = itp(node[0] if d == 1 else node)
+                tok = value_token(r, 'float64')
+                if tok != exp:
+                    ctx.violation(key + 'node value not reproduced', 'at the node {} expected {} got {}'.format(
+                        node, exp, tok), rc)
+            except Exception as ex:  # noqa
+                ctx.violation(key + 'raised', '{}: {}'.format(type(ex).__name__, str(ex)[:200]), rc)
+
+
 def run_sampling(ctx):
+    run_alias_check(ctx)
     run_bounds_check(ctx)
     run_tuple_1d_plain(ctx)
     run_vector_kwargs(ctx)
@@ -1655,6 +1812,7 @@ def run(ctx):
     run_dtype_table(ctx)
     run_dispatch(ctx)
     run_input_classes(ctx)
+    run_single_node_axis(ctx)
     run_sampling(ctx)
     unhit = [b for b in MODEL_BRANCHES if not ctx.branches.get(b)]
     ctx.extra['unhit_model_branches'] = unhit
@@ -1677,6 +1835,7 @@ def search(ctx, broken):
         run_dtype_table(ctx, with_model=False)
         run_dispatch(ctx, with_model=False)
         run_input_classes(ctx, with_model=False)
+        run_single_node_axis(ctx)
         run_sampling(ctx)
     finally:
         ctx.tier = saved
@@ -1708,6 +1867,10 @@ def replay(ctx, case):
         run_tuple_1d_plain(ctx)
     elif kind == 'veckw':
         run_vector_kwargs(ctx)
+    elif kind == 'alias':
+        run_alias_check(ctx)
+    elif kind == 'single-node':
+        run_single_node_axis(ctx)
     elif kind == 'dispatch':
         run_dispatch(ctx, with_model=False)
     elif kind == 'inputclass':
